@@ -319,6 +319,12 @@ func genC06(tier string, r *rng) {
 			certs = append(certs, s.data)
 		}
 	}
+	// certificates crypto/x509 refuses although they are well-formed DER: subject keys on brainpoolP256r1 and secp256k1
+	for _, curve := range [][]int{{1, 3, 36, 3, 3, 2, 8, 1, 1, 7}, {1, 3, 132, 0, 10}} {
+		spki := xSeq(xSeq(xOID(1, 2, 840, 10045, 2, 1), xOID(curve...)), xTLV(0x03, append([]byte{0, 4}, r.bytes(64)...)))
+		subj := xName([][]xATV{{{[]int{2, 5, 4, 3}, 12, "Odd Curve Root"}}})
+		certs = append(certs, xCert(subj, 23, "200101000000Z", 23, "300101000000Z", xSeq(xOID(1, 2, 840, 10045, 4, 3, 2)), spki))
+	}
 	if len(certs) > 0 {
 		nk := 60
 		if tier == "thorough" {
@@ -361,16 +367,17 @@ func genC06(tier string, r *rng) {
 				// each X.509 certificate of the entry inspected on its own
 				var crecs []string
 				nc := 0
+				// every certificate of the entry, in order: its description when inspected on its own as a DER file (a
+				// certificate, or the generic ASN.1 dump when crypto/x509 cannot read it), or "0" when it has none
 				for _, c := range e.certs {
-					if e.ctype != "" {
-						continue
-					}
+					nc++
 					ci, cerr := inspectBytes("c.der", c)
-					if cerr == nil && strings.Contains(ci.Description, "certificate") {
+					if e.ctype == "" && cerr == nil && (strings.Contains(ci.Description, "certificate") || ci.Description == "ASN.1 data") {
 						t := infoTokens(file.Info{Description: ci.Description, Attributes: ci.Attributes, Children: ci.Children})
 						crecs = append(crecs, fmt.Sprint(len(t)))
 						crecs = append(crecs, t...)
-						nc++
+					} else {
+						crecs = append(crecs, "0")
 					}
 				}
 				recs = append(recs, "X", fmt.Sprint(nc))
